@@ -94,6 +94,11 @@ func checkMain(args []string) int {
 	var known []KnownFinding
 	_ = readJSON(filepath.Join(verifDir, "known_findings.json"), &known)
 
+	for _, k := range known {
+		if k.Property == prop && k.Status == "known" {
+			knownFailing[k.Obligation] = true
+		}
+	}
 	timeout := 10
 	all := false
 	if *tier == "thorough" {
